@@ -27,12 +27,16 @@ BLOCKED_EXTRA = ["add_edge", "add_edges_from", "remove_edge", "remove_edges_from
 
 
 def inherited(cls):
+    """public callables of the networkx API reachable on cls: those whose defining class is a networkx class,
+    and those dynetx overrides under the same name (clear, clear_edges, to_undirected, ... -- an override is
+    still 'a call through the inherited networkx API' for the caller)"""
+    base = [k for k in cls.__mro__ if k.__module__.startswith("networkx")][0]
     out = []
     for name in dir(cls):
-        if name.startswith("_"):
+        if name.startswith("_") or not callable(getattr(cls, name)):
             continue
         owner = next(k for k in cls.__mro__ if name in k.__dict__)
-        if owner.__module__.startswith("networkx") and callable(getattr(cls, name)):
+        if owner.__module__.startswith("networkx") or (hasattr(base, name) and callable(getattr(base, name, None))):
             out.append(name)
     return out
 
